@@ -348,6 +348,8 @@ def _show(t, names=None):
     if op == 'proj': return '%s%s' % (show(t[1], names), show_path((t[2],)))
     if op == 'iter': return 'iter.%s(%s)' % (t[1], ', '.join(show_path(a) if _is_path(a) else show(a, names) for a in t[2:]))
     if op == 'powi': return '%s^%s' % (show(t[1], names), t[2])
+    if op == 'pathset':
+        return 'paths@%s{%s}' % (t[1], ' | '.join(' & '.join(('!' if o == '0' else '') + show(c, names) + ('' if o in ('0', '1', 'otherwise') else '=' + str(o)) for c, o in alt) for alt in t[2]))
     if op == 'seq':
         srcs = []
         for src in t[1]:
